@@ -252,6 +252,7 @@ def op_cases(rng, n, maxcmds=7):
             k = rng.below(20)
             c = rng.pick([b"", b"", b"", b"2", b"3", b"5", b"12"])
             r = rng.pick([b"", b"", b"", b'"a', b'"b', b'"A', b'""', b'"1', b'"z', b'"B'])
+            rp = rng.pick([r, r, r, b'"#', b'"^', b'";', b'"2', b'"9'])        # registers for puts
             if k < 4:      # position the cursor
                 parts.append(rng.pick([b"", b"2", b"3"]) + rng.pick(movers))
             elif k < 9:
@@ -264,7 +265,7 @@ def op_cases(rng, n, maxcmds=7):
                 if rng.below(3) == 0:      # an operator with % from either bracket
                     parts.append(rng.pick([b"f)", b"f(", b"f]", b"f[", b"f}", b"f{", b"$", b"0"]) + r + rng.pick([b"d", b"y"]) + b"%")
                 else: parts.append(r + c + rng.pick([b"x", b"X", b"D", b"Y"]))
-            elif k < 14: parts.append(r + rng.pick([b"", b"", b"2", b"3"]) + rng.pick([b"p", b"P"]))
+            elif k < 14: parts.append(rp + rng.pick([b"", b"", b"2", b"3"]) + rng.pick([b"p", b"P"]))
             elif k == 14: parts.append(rng.pick([b"", b"2", b"3", b"4"]) + b"J")
             elif k == 15: parts.append(rng.pick([b"", b"2", b"3"]) + b"r" + rng.pick(common[:12]))
             elif k == 16: parts.append(rng.pick([b"", b"2", b"5", b"40"]) + b"~")
